@@ -40,6 +40,13 @@ def check(tier, seed):
         else:
             for m in mem_sizes:
                 jobs.append(dict(name="%s_m%d" % (name, m), src=src, args=["40"], stack=200, mem=m, meta=dict(prog=name, axis="heap", size=m)))
+            # every heap size of a window: the heap then runs out at every allocation of every multi-allocation handler in turn
+            # (string + its reference, array + elements + reference, record + fields …); a collector that "helps" at that point
+            # frees cells held only in C locals
+            if meta.get("alloc") and (tier != "quick" or name.startswith(("alloc_records", "alloc_arrays", "alloc_strings"))):
+                for m in range(24, 150 if tier == "quick" else 420):
+                    if m not in mem_sizes:
+                        jobs.append(dict(name="%s_m%d" % (name, m), src=src, args=["12"], stack=200, mem=m, meta=dict(prog=name + "#fine", axis="heap", size=m)))
             # C14-3 style: heap smaller than stack with a deep program
     wide = next((p for p in fam if p[2].get("wide")), None)
     if wide:
